@@ -114,6 +114,8 @@ def gen_cases(tier: str, seed: int) -> List[Dict]:
     cases: List[Dict] = []
     shape_tuples = [
         [()],
+        [(), ()],
+        [(), (), ()],
         [(2,)],
         [(), (2,)],
         [(2,), (2,)],
@@ -123,6 +125,11 @@ def gen_cases(tier: str, seed: int) -> List[Dict]:
         [(2, 1, 2), (2,), (1, 2)],
         [(2,), (1, 2), (2, 1, 1), ()],
         [(1, 2, 2), (2, 2)],
+        # arrays without elements keep their (broadcast) shape through every aligner
+        [(0,), ()],
+        [(2, 0), (1,), ()],
+        [(0,), (0,)],
+        [(1, 0), (2, 1)],
     ]
     name_choices = [("q0",), ("q1",), ("q0", "q1"), ("q0", "q2"), ("q2", "q10"), ("q10",), ("q1", "q2", "q10"), ("q3", "q12"), ("q1", "q0"), ("q10", "q2"), ("q2", "q0", "q1")]
     n = 0
@@ -164,6 +171,13 @@ def gen_cases(tier: str, seed: int) -> List[Dict]:
             c = {"kind": "array", "shape": [2], "slots": [rng.choice(S.dtype_extremes(dt)) for _ in range(2)], "dtype": dt}
             n += 1
             cases.append({"id": "%s-%03d-%s-dtype-%s" % (PROP, n, fn, dt), "op": fn, "fn": fn, "operands": [a, b] + ([c] if rng.random() < 0.5 else []), "exact": True, "limits": lim})
+    # plain python numbers next to 0-d polynomials: nothing has to be broadcast, so an aligner may hand back the very object
+    # it converted the number into (which must then be the caller's own, not shared with later conversions of the same number)
+    for fn in FUNCS:
+        for lits in ([2, 3], [2], [0, 1, 2]):
+            ops_ = [{"kind": "scalar", "shape": [], "slots": [v]} for v in lits] + [S.make_poly_spec("a", ("q0",), [[0], [1]], (), rng, 2, mode="raw")]
+            n += 1
+            cases.append({"id": "%s-%03d-%s-pynum" % (PROP, n, fn), "op": fn, "fn": fn, "operands": ops_, "limits": lim})
     # already aligned arguments (internal aliasing possible)
     for fn in FUNCS:
         names = ("q0", "q1")
